@@ -472,6 +472,44 @@ func c18RawFramed(p *load.Program, r *oblig.Report) {
 		}
 	})
 	r.Check(okReq, rule, "saslauthenticate.Request.Required → raw exchange iff the handshake was negotiated at v0", p.Pos(req.Pos()), "versions[SaslHandshake] == 0", "not recognised")
+	// a raw token is a 4-byte big-endian length followed by that many bytes: the length announced is the length of
+	// the token, on both stacks
+	wt := p.Func("protocol/saslauthenticate", "(*Request).writeTo")
+	if wt == nil {
+		r.Lost(rule, "protocol/saslauthenticate.(*Request).writeTo")
+	} else {
+		announced, copied := "", ""
+		an.EachInstr(wt, func(ins ssa.Instruction) {
+			call, ok := ins.(*ssa.Call)
+			if !ok {
+				return
+			}
+			if f := call.Call.StaticCallee(); f != nil && an.ShortFunc(f) == "(encoding/binary.bigEndian).PutUint32" {
+				announced = clean(an.Shape(call.Call.Args[len(call.Call.Args)-1]))
+			}
+			if b, isB := call.Call.Value.(*ssa.Builtin); isB && b.Name() == "copy" {
+				copied = clean(an.Shape(call.Call.Args[1]))
+			}
+		})
+		r.Check(announced == "uint32(len("+copied+"))" && strings.HasSuffix(copied, ".AuthBytes"), rule, "saslauthenticate.Request.writeTo → the raw token is prefixed with its own length", p.Pos(wt.Pos()),
+			"binary.BigEndian.PutUint32(buf[:4], uint32(len(r.AuthBytes))); copy(buf[4:], r.AuthBytes)", "announces "+announced+", sends "+copied)
+	}
+	// legacy Conn: writeInt32(int32(len(data))) then Write(data) on the raw branch
+	announced, sent := "", ""
+	an.EachInstr(fn, func(ins ssa.Instruction) {
+		call, ok := ins.(*ssa.Call)
+		if !ok || call.Call.StaticCallee() == nil || call.Parent() != fn {
+			return
+		}
+		switch an.RefFuncName(call.Call.StaticCallee()) {
+		case "writeInt32":
+			announced = clean(an.Shape(call.Call.Args[len(call.Call.Args)-1]))
+		case "Write":
+			sent = clean(an.Shape(call.Call.Args[len(call.Call.Args)-1]))
+		}
+	})
+	r.Check(sent != "" && announced == "int32(len("+sent+"))", rule, "(*Conn).saslAuthenticate → the raw token is prefixed with its own length", pos,
+		"c.wb.writeInt32(int32(len(data))); c.wb.Write(data)", "announces "+announced+", sends "+sent)
 }
 
 func c18Loops(p *load.Program, r *oblig.Report) {
@@ -515,16 +553,15 @@ func c18Loops(p *load.Program, r *oblig.Report) {
 				return
 			}
 			// find a test of errVal against nil; `switch { case err == nil: … }` included
-			var failStart *ssa.BasicBlock
+			var failStart, testBlk *ssa.BasicBlock
+			okIdx := -1
 			for _, b := range an.Blocks(fn) {
 				_, ci := an.IfCond(b)
 				if ci == nil || ci.X != errVal || !an.IsNilConst(ci.Y) {
 					continue
 				}
-				if ci.Op == token.NEQ {
-					failStart = b.Succs[0]
-				} else if ci.Op == token.EQL {
-					failStart = b.Succs[1]
+				if e := ci.Edge(token.NEQ); e >= 0 {
+					failStart, testBlk, okIdx = b.Succs[e], b, 1-e
 				}
 			}
 			if failStart == nil {
@@ -550,6 +587,20 @@ func c18Loops(p *load.Program, r *oblig.Report) {
 				where = "the failure edge reaches " + p.Pos(hit.Pos())
 			}
 			r.Check(hit == nil, rule, "kafka."+name+" → a failed "+short+" ends authentication with an error", p.Pos(call.Pos()), "the err != nil edge returns a non-nil error without continuing the exchange", where)
+			// and success is not declared before the step's error was looked at: no nil return is reachable from the
+			// step without taking the err == nil edge of its test
+			q2 := an.PathQuery{Fn: fn,
+				Edge: func(from *ssa.BasicBlock, si int) bool { return !(from == testBlk && si == okIdx) },
+				Target: func(i ssa.Instruction) bool {
+					ret, ok := i.(*ssa.Return)
+					return ok && len(ret.Results) == 1 && an.IsNilConst(an.RetVal(ret, 0))
+				}}
+			early := q2.ReachableFrom(an.PointOf(call))
+			where2 := ""
+			if early != nil {
+				where2 = "the nil return at " + p.Pos(early.Pos()) + " is reachable before the error of " + short + " is tested"
+			}
+			r.Check(early == nil, rule, "kafka."+name+" → success is never reported before the error of "+short+" was tested", p.Pos(call.Pos()), "every path from the step to `return nil` takes the err == nil edge", where2)
 		})
 		r.RequireCount(rule+" ("+name+" steps)", steps, 4)
 		// the only nil return is reached from the loop exit on `completed`
